@@ -17,11 +17,13 @@
 (* link in {none, old, new}.                                                      *)
 EXTENDS Integers, Sequences, FiniteSets, FiniteSetsExt, TLC, Json
 
-CONSTANTS U, TrustSize, CountOnly
+CONSTANTS U, TrustSize, CountOnly, StaleMarkers
 \* TrustSize: a layer whose file has the manifest's size counts as cached (registry.go Pull: c.Get(l.Digest), info.Size == l.Size)
 \* CountOnly: the chunk list is accepted when the byte count adds up (completed = expected); FALSE: the list must also be
 \* contiguous -- a chunk that does not start where the previous one ended ends the list (the repair of registry.go Pull)
-\* (TrustSize TRUE, CountOnly FALSE = the code as it is after that repair; both FALSE = a design that satisfies the property)
+\* StaleMarkers: a chunk marker stays valid when a later chunk of ANOTHER plan writes unverified bytes over its range (the
+\* body of a chunk goes into the file as it arrives, only its last write waits for the hash) -- the code as it is
+\* (TrustSize TRUE, CountOnly FALSE, StaleMarkers TRUE = the code as it is; all FALSE = a design that satisfies the property)
 
 Units == 1..U
 \* chunk plans: contiguous partitions of 1..U into 2 or 3 chunks, as <<start, end>> pairs
@@ -58,7 +60,8 @@ Fetch(st, ch, f) ==
     [] f = "corrupt1" ->                       \* right length, first unit flipped: all writes but the last one reach the file
          [st EXCEPT !.big = [u \in Units |-> IF u = ch[1] /\ Size(ch) > 1 THEN "bad"
                                                ELSE IF u \in (ch[1] + 1)..(ch[2] - 1) THEN "good" ELSE @[u]],
-                    !.len = Max2(@, ch[2] - 1), !.err = TRUE, !.got = @ + Size(ch)]
+                    !.len = Max2(@, ch[2] - 1), !.err = TRUE, !.got = @ + Size(ch),
+                    !.marker = IF StaleMarkers \/ Size(ch) = 1 THEN @ ELSE {mk \in @ : mk[2] < ch[1] \/ mk[1] > ch[2] - 1}]
 
 RECURSIVE FetchAll(_, _, _, _)
 FetchAll(st, chunks, f, k) ==
